@@ -17,11 +17,25 @@ func init() {
 			for n := 0; n <= maxBer; n++ {
 				add("pkcs7", "verifH_c13_ber", P("n", n))
 			}
+			for _, bs := range []int{8, 16} {
+				for _, ivl := range uniq([]int{0, 1, bs - 1, bs, bs + 1, 2 * bs}) {
+					for _, n := range uniq([]int{0, 1, bs - 1, bs, bs + 1, 2 * bs, 2*bs + 3}) {
+						add("pkcs", "verifH_c13_cbcdecrypt", P("bs", bs, "ivlen", ivl, "n", n))
+					}
+				}
+				for _, n := range uniq([]int{0, 1, bs - 1, bs, bs + 1, 2 * bs, 2*bs + 3}) {
+					add("pkcs", "verifH_c13_ecbdecrypt", P("bs", bs, "n", n))
+					add("pkcs", "verifH_c13_cbc_roundtrip", P("bs", bs, "n", n))
+				}
+			}
+			for _, n := range []int{0, 1, 15, 17, 31, 33} { // whole-block inputs run the real SM4 symbolically: too heavy, covered over UF-E in pkcs
+				add("cfca", "verifH_c13_cfca_decrypt", P("n", n))
+			}
 			return cs
 		},
-		Functions:   []string{"pkcs7.ber2der/readObject/isIndefiniteTermination/encodeLength"},
+		Functions:   []string{"pkcs7.ber2der/readObject/isIndefiniteTermination/encodeLength", "pkcs.cbcDecrypt/cbcEncrypt, (*ecbBlockCipher).Decrypt (PBES1/PBES2/PKCS#7/PKCS#8 content decryption)", "cfca.DecryptBySM4CBC", "crypto/cipher CBC (real generic code over UF-E)", "padding.pkcs7Padding.Unpad"},
 		Assumptions: []string{"input = arbitrary byte string of the stated length (all bytes symbolic); every Go run-time panic on a feasible path is a violation; loops carry an unwinding bound derived from the input length"},
-		Bounds:      map[string]string{"quick": "BER reader: every byte string of 0..6 bytes", "thorough": "0..9 bytes"},
+		Bounds:      map[string]string{"quick": "BER reader: every byte string of 0..6 bytes; pkcs CBC/ECB decrypt helpers: block sizes 8/16, IV lengths {0,1,bs-1,bs,bs+1,2bs}, ciphertext lengths {0,1,bs-1,bs,bs+1,2bs,2bs+3} with symbolic contents; cfca.DecryptBySM4CBC on lengths {0,1,15,17,31,33}", "thorough": "BER reader 0..9 bytes"},
 		Outside:     []string{"parsers built on encoding/asn1 reflection, math/big, encoding/pem"},
 		Oracle:      "absence of panics / termination",
 	})
